@@ -989,3 +989,206 @@ SEEDS["C13_rollback_deletes_only_new_keys"] = ("C13", [(S, """                me
 SEEDS["C04_rollback_deletes_only_new_keys"] = ("C04", [(S, """                memo.clear()
                 memo.update(new_memo)""", """                for name in [name for name in memo if name not in new_memo]:
                     del memo[name]""")], "C04.4")
+
+# ------------------------------------------------------------------------- C14
+SEEDS["C14_fixed_treepath_allowed"] = ("C14", [(A, """            if treepath:
+                raise ValueError(
+                    "Cannot have a fixed axis have tree-path dependence, e.g. `?4` is "
+                    "not allowed."
+                )
+""", "")], "C14.4")
+SEEDS["C14_typeerror_instead_of_valueerror"] = ("C14", [(A, """                raise ValueError(
+                    "Cannot have a symbolic axis be anonymous, e.g. \"""", """                raise TypeError(
+                    "Cannot have a symbolic axis be anonymous, e.g. \"""")], "C14.1")
+SEEDS["C14_strip_before_isinstance"] = ("C14", [(A, """        array_type, dim_str = item
+        if not isinstance(dim_str, str):
+            raise ValueError(
+                "Shape specification must be a string. Axes should be separated with "
+                "spaces."
+            )
+        dim_str = dim_str.strip()""", """        array_type, dim_str = item
+        dim_str = dim_str.strip()""")], "C14.2")
+SEEDS["C14_question_only_after_star"] = ("C14", [(A, """                elif first_char == "?":
+                    if treepath:""", """                elif first_char == "?" and variadic:
+                    if treepath:""")], "C14.3")
+SEEDS["C14_treepath_arm_tests_variadic_flag"] = ("C14", [(A, """                elif first_char == "?":
+                    if treepath:""", """                elif first_char == "?":
+                    if variadic:""")], "C14.3")
+SEEDS["C14_flags_reset_in_loop"] = ("C14", [(A, """                elif elem.count("=") == 1:
+                    _, elem = elem.split("=")""", """                elif elem.count("=") == 1:
+                    _, elem = elem.split("=")
+                    broadcastable = False""")], "C14")
+SEEDS["C14_dollar_modifier_added"] = ("C14", [(A, """                elif first_char == "?":
+                    if treepath:""", """                elif first_char == "$":
+                    if anonymous:
+                        raise ValueError("no")
+                    anonymous = True
+                    elem = elem[1:]
+                elif first_char == "?":
+                    if treepath:""")], "C14.3")
+SEEDS["C14_second_variadic_accepted"] = ("C14", [(A, """            if index_variadic is not None:
+                raise ValueError(
+                    "Cannot use variadic specifiers (`*name` or `...`) "
+                    "more than once."
+                )
+            index_variadic = index""", """            index_variadic = index""")], "C14.4")
+SEEDS["C14_ellipsis_continue"] = ("C14", [(A, """            broadcastable = False
+            variadic = True
+            anonymous = True
+            treepath = False
+            dim_type = _DimType.named""", """            index_variadic = index
+            dims.append(_anonymous_variadic_dim)
+            continue""")], "C14.4")
+SEEDS["C14_split_on_space"] = ("C14", [(A, "enumerate(dim_str.split())", 'enumerate(dim_str.split(" "))')], "C14.5")
+SEEDS["C14_no_strip"] = ("C14", [(A, "        dim_str = dim_str.strip()\n        if isinstance(array_type, TypeVar):", "        if isinstance(array_type, TypeVar):")], "C14.5")
+SEEDS["C14_elem0_without_len_guard"] = ("C14", [(A, """                if len(elem) == 0:
+                    # This branch needed as just `_` is valid
+                    break
+                first_char = elem[0]""", """                first_char = elem[0]""")], "C14.2")
+SEEDS["C14_broadcast_fixed_rejected"] = ("C14", [(A, """            if treepath:
+                raise ValueError(
+                    "Cannot have a fixed axis have tree-path dependence, e.g. `?4` is "
+                    "not allowed."
+                )""", """            if treepath:
+                raise ValueError(
+                    "Cannot have a fixed axis have tree-path dependence, e.g. `?4` is "
+                    "not allowed."
+                )
+            if broadcastable:
+                raise ValueError("no")""")], "C14.4")
+TWINS["C14_twin_arms_reordered"] = ("C14", [(A, """                if first_char == "#":
+                    if broadcastable:
+                        raise ValueError(
+                            "Do not use # twice to denote broadcastability, e.g. "
+                            "`##foo` is not allowed"
+                        )
+                    broadcastable = True
+                    elem = elem[1:]
+                elif first_char == "*":
+                    if variadic:
+                        raise ValueError(
+                            "Do not use * twice to denote accepting multiple "
+                            "axes, e.g. `**foo` is not allowed"
+                        )
+                    variadic = True
+                    elem = elem[1:]""", """                if first_char == "*":
+                    if variadic:
+                        raise ValueError(
+                            "Do not use * twice to denote accepting multiple "
+                            "axes, e.g. `**foo` is not allowed"
+                        )
+                    variadic = True
+                    elem = elem[1:]
+                elif first_char == "#":
+                    if broadcastable:
+                        raise ValueError(
+                            "Do not use # twice to denote broadcastability, e.g. "
+                            "`##foo` is not allowed"
+                        )
+                    broadcastable = True
+                    elem = elem[1:]""")])
+
+# ------------------------------------------------------------------------- C18
+GETCODE = """        with patch(
+            "importlib._bootstrap_external.cache_from_source",
+            ft.partial(_optimized_cache_from_source, self._typechecker.get_hash()),
+        ):
+            return super().get_code(fullname)"""
+SEEDS["C18_tag_without_hash"] = ("C18", [(H, 'optimization=f"jaxtyping9{typechecker_hash}"', 'optimization="jaxtyping9"')], "C18.1")
+SEEDS["C18_patch_around_exec_module"] = ("C18", [(H, """    def get_code(self, fullname):""", """    def exec_module(self, module):"""), (H, "            return super().get_code(fullname)", "            return super().exec_module(module)")], "C18.3")
+SEEDS["C18_builtin_hash"] = ("C18", [(H, 'self.hash = hashlib.md5(typechecker.encode("utf-8")).hexdigest()', 'self.hash = str(abs(hash(typechecker)))')], "C18.2")
+SEEDS["C18_id_hash"] = ("C18", [(H, 'self.hash = hashlib.md5(typechecker.encode("utf-8")).hexdigest()', 'self.hash = hex(id(self))')], "C18.2")
+SEEDS["C18_no_patch"] = ("C18", [(H, GETCODE, "        return super().get_code(fullname)")], "C18.3")
+SEEDS["C18_patch_wrong_target"] = ("C18", [(H, '"importlib._bootstrap_external.cache_from_source",\n            ft.partial', '"importlib.util.cache_from_source",\n            ft.partial')], "C18.3")
+SEEDS["C18_patch_only_source_to_code"] = ("C18", [(H, GETCODE, """        return super().get_code(fullname)"""), (H, """        tree = JaxtypingTransformer(typechecker=self._typechecker).visit(tree)""", """        with patch(
+            "importlib._bootstrap_external.cache_from_source",
+            ft.partial(_optimized_cache_from_source, self._typechecker.get_hash()),
+        ):
+            tree = JaxtypingTransformer(typechecker=self._typechecker).visit(tree)""")], "C18.3")
+SEEDS["C18_override_path_stats"] = ("C18", [(H, """    def get_code(self, fullname):""", """    def path_stats(self, path):
+        return {"mtime": 0, "size": None}
+
+    def get_code(self, fullname):""")], "C18.4")
+SEEDS["C18_hash_from_other_loader"] = ("C18", [(H, "ft.partial(_optimized_cache_from_source, self._typechecker.get_hash()),", 'ft.partial(_optimized_cache_from_source, "0"),')], "C18.1")
+SEEDS["C18_manual_patch_without_finally"] = ("C18", [(H, GETCODE, """        with _patch_cache_from_source(self._typechecker.get_hash()):
+            return super().get_code(fullname)"""), (H, "class Typechecker:\n    lookup = {}", """import contextlib
+import importlib._bootstrap_external
+
+
+@contextlib.contextmanager
+def _patch_cache_from_source(typechecker_hash):
+    original = importlib._bootstrap_external.cache_from_source
+    importlib._bootstrap_external.cache_from_source = ft.partial(
+        _optimized_cache_from_source, typechecker_hash
+    )
+    yield
+    importlib._bootstrap_external.cache_from_source = original
+
+
+class Typechecker:
+    lookup = {}""")], "C18.5")
+TWINS["C18_twin_manual_patch_with_finally"] = ("C18", [(H, GETCODE, """        with _patch_cache_from_source(self._typechecker.get_hash()):
+            return super().get_code(fullname)"""), (H, "class Typechecker:\n    lookup = {}", """import contextlib
+import importlib._bootstrap_external
+
+
+@contextlib.contextmanager
+def _patch_cache_from_source(typechecker_hash):
+    original = importlib._bootstrap_external.cache_from_source
+    importlib._bootstrap_external.cache_from_source = ft.partial(
+        _optimized_cache_from_source, typechecker_hash
+    )
+    try:
+        yield
+    finally:
+        importlib._bootstrap_external.cache_from_source = original
+
+
+class Typechecker:
+    lookup = {}""")])
+TWINS["C18_twin_sha256"] = ("C18", [(H, 'self.hash = hashlib.md5(typechecker.encode("utf-8")).hexdigest()', 'self.hash = hashlib.sha256(typechecker.encode("utf-8")).hexdigest()')])
+
+# ------------------------------------------------------------------------- C11
+SEEDS["C11_raw_prefix"] = ("C11", [(H, 'module_name.startswith(module + ".")', 'module_name.startswith(module)')], "C11.2")
+SEEDS["C11_substring"] = ("C11", [(H, 'if module_name == module or module_name.startswith(module + "."):', 'if module in module_name:')], "C11.2")
+SEEDS["C11_only_equal"] = ("C11", [(H, 'if module_name == module or module_name.startswith(module + "."):', 'if module_name == module:')], "C11.2")
+SEEDS["C11_loader_before_test"] = ("C11", [(H, """        if self.should_instrument(fullname):
+            spec = self._original_pathfinder.find_spec(fullname, path, target)
+            if spec is not None and isinstance(spec.loader, SourceFileLoader):""", """        spec = self._original_pathfinder.find_spec(fullname, path, target)
+        if spec is not None and isinstance(spec.loader, SourceFileLoader):
+            if True:""")], "C11.1")
+SEEDS["C11_uninstall_removes_first_finder"] = ("C11", [(H, "            sys.meta_path.remove(self.hook)", "            sys.meta_path.pop(0)")], "C11.3")
+SEEDS["C11_exit_uninstalls_only_without_error"] = ("C11", [(H, """    def __exit__(self, exc_type, exc_val, exc_tb):
+        self.uninstall()""", """    def __exit__(self, exc_type, exc_val, exc_tb):
+        if exc_type is None:
+            self.uninstall()""")], "C11.3")
+SEEDS["C11_hook_appended_last"] = ("C11", [(H, "    sys.meta_path.insert(0, hook)", "    sys.meta_path.append(hook)")], "C11.3")
+SEEDS["C11_global_checker"] = ("C11", [(H, """                spec.loader = _JaxtypingLoader(
+                    spec.loader.name, spec.loader.path, typechecker=self._typechecker
+                )""", """                spec.loader = _JaxtypingLoader(
+                    spec.loader.name, spec.loader.path, typechecker=_current_typechecker
+                )"""), (H, "class Typechecker:\n    lookup = {}", "_current_typechecker = None\n\n\nclass Typechecker:\n    lookup = {}")], "C11.4")
+SEEDS["C11_pytest_plugin_order"] = ("C11", [(T, "    *packages, typechecker = packages", "    typechecker, *packages = packages")], "C11.5")
+SEEDS["C11_magic_keeps_old_transformers"] = ("C11", [(X, "                    lambda x: not isinstance(x, JaxtypingTransformer),", "                    lambda x: isinstance(x, JaxtypingTransformer),")], "C11.5")
+SEEDS["C11_names_normalised_by_prefix"] = ("C11", [(H, """    if isinstance(modules, str):
+        modules = [modules]
+""", """    if isinstance(modules, str):
+        modules = [modules]
+    modules = [m for m in modules if not any(m != o and m.startswith(o) for o in modules)]
+""")], "C11.1")
+SEEDS["C11_reuses_existing_finder"] = ("C11", [(H, """    hook = _JaxtypingFinder(modules, finder, wrapped_typechecker)
+    sys.meta_path.insert(0, hook)
+    return ImportHookManager(hook)""", """    for existing in sys.meta_path:
+        if isinstance(existing, _JaxtypingFinder) and existing.modules == modules:
+            return ImportHookManager(existing)
+    hook = _JaxtypingFinder(modules, finder, wrapped_typechecker)
+    sys.meta_path.insert(0, hook)
+    return ImportHookManager(hook)""")], "C11.3")
+TWINS["C11_twin_any_form"] = ("C11", [(H, """        for module in self.modules:
+            if module_name == module or module_name.startswith(module + "."):
+                return True
+
+        return False""", """        return any(
+            module_name == module or module_name.startswith(f"{module}.")
+            for module in self.modules
+        )""")])
